@@ -639,11 +639,18 @@ class Tally(StatisticsInterface):
         """
         n = float(self._n)
         if n > 1:
-            skew_biased = (self._m3 / n) / self.variance() ** 1.5 
-            if biased:
-                return skew_biased
-            elif n > 2:
-                return (skew_biased * math.sqrt(n * (n - 1)) / (n - 2))
+            variance = self.variance()
+            if variance > 0:
+                # variance ** 1.5 without the power operator (which raises
+                # OverflowError); skewness is undefined for zero variance
+                denominator = variance * math.sqrt(variance)
+                if denominator > 0:
+                    skew_biased = (self._m3 / n) / denominator
+                    if biased:
+                        return skew_biased
+                    elif n > 2:
+                        return (skew_biased * math.sqrt(n * (n - 1))
+                                / (n - 2))
         return math.nan
     
     def kurtosis(self, biased: bool=True) -> float:
@@ -687,10 +694,13 @@ class Tally(StatisticsInterface):
         if biased:
             if n > 2:
                 d2 = (self._m2 / n)
-                return (self._m4 / n) / d2 / d2
+                if d2 > 0:
+                    return (self._m4 / n) / d2 / d2
         elif n > 3:
             svar = self.variance(False)
-            return self._m4 / (n - 1) / svar / svar
+            if svar > 0:
+                return self._m4 / (n - 1) / svar / svar
+        # too few observations, or zero variance: kurtosis is undefined
         return math.nan
     
     def excess_kurtosis(self, biased: bool=True) -> float:
